@@ -189,6 +189,7 @@ func init() {
 			{Fn: "H_history", Params: k(3), Tier: "thorough", Reach: []string{"end"}},
 			{Fn: "H_script", Fuel: 60_000_000, Tier: "quick", Reach: []string{"end"}},
 			{Fn: "H_base_code", Fuel: 60_000_000, Tier: "quick", Reach: []string{"end"}},
+			{Fn: "H_base_after", Fuel: 60_000_000, Tier: "quick", Reach: []string{"end"}},
 			{Fn: "H_autoload", Params: k(1), Fuel: 60_000_000, Tier: "quick", Reach: []string{"end"}},
 			{Fn: "H_autoload", Params: k(2), Fuel: 60_000_000, Tier: "thorough", Reach: []string{"end"}},
 		},
@@ -259,6 +260,8 @@ func init() {
 			{Fn: "H_two_locals", Fuel: 30_000_000, Tier: "quick", Sched: true, Preempt: 2, Reach: []string{"end"}, NativeTwin: "N_reentrant"},
 			{Fn: "H_two_middleware", Fuel: 30_000_000, Tier: "quick", Sched: true, Preempt: 2, Reach: []string{"end"}, NativeTwin: "N_reentrant"},
 			{Fn: "H_two_constructs", Fuel: 30_000_000, Tier: "quick", Sched: true, Preempt: 1, Reach: []string{"end"}, NativeTwin: "N_reentrant"},
+			{Fn: "H_two_capture", Fuel: 30_000_000, Tier: "quick", Sched: true, Preempt: 1, Reach: []string{"end"}, NativeTwin: "N_reentrant"},
+			{Fn: "H_two_capture", Fuel: 30_000_000, Tier: "thorough", Sched: true, Preempt: 2, Reach: []string{"end"}, NativeTwin: "N_reentrant"},
 			{Fn: "H_two_constructs", Fuel: 30_000_000, Tier: "thorough", Sched: true, Preempt: 2, Reach: []string{"end"}, NativeTwin: "N_reentrant"},
 			{Fn: "H_two", Fuel: 30_000_000, Tier: "thorough", Sched: true, Preempt: 3, Reach: []string{"end"}, NativeTwin: "N_reentrant"},
 			{Fn: "H_two_locals", Fuel: 30_000_000, Tier: "thorough", Sched: true, Preempt: 3, Reach: []string{"end"}, NativeTwin: "N_reentrant"},
